@@ -266,27 +266,36 @@ Fixpoint keys_distinct (ks : list val) : bool :=
   | k :: r => negb (existsb (veqb k) r) && keys_distinct r
   end.
 
-Definition set_ok (l : list val) : bool :=
+(* [all]: the whole intended domain (what the correspondence check uses as its guard);
+   without it the sequence representations (strings, byte arrays, arrays) are left out:
+   that is the part the proved theorem covers so far. *)
+Definition set_ok_gen (all : bool) (l : list val) : bool :=
   match set_shape l with
-  | ShStr | ShBytes => increasing true (map fst (zsort (map (fun m => (mem_index m, mem_scalar m)) l)))
-  | ShArr => increasing false (map fst (zsort (map (fun m => (mem_index m, tt)) l)))
+  | ShStr | ShBytes => all && increasing true (map fst (zsort (map (fun m => (mem_index m, mem_scalar m)) l)))
+  | ShArr => all && increasing false (map fst (zsort (map (fun m => (mem_index m, tt)) l)))
   | ShDict => keys_distinct (map (fun m => norm (mem_key m)) l)
   | ShRel ns => match ns with [] => false | _ => true end
   | _ => true
   end.
 
-Fixpoint printable (v : val) : bool :=
+Fixpoint printable_gen (all : bool) (v : val) : bool :=
   match v with
   | VNum _ => true
   | VTup l =>
       sugar_ok l && negb (nested_neg l) &&
       (fix go (l : list (name * val)) : bool :=
-         match l with [] => true | (n, x) :: l' => name_ok n && printable x && go l' end) l
+         match l with [] => true | (n, x) :: l' => name_ok n && printable_gen all x && go l' end) l
   | VSet l =>
-      set_ok l &&
+      set_ok_gen all l &&
       (fix go (l : list val) : bool :=
-         match l with [] => true | m :: l' => printable m && go l' end) l
+         match l with [] => true | m :: l' => printable_gen all m && go l' end) l
   end.
+
+(* every value outside the open findings *)
+Definition printable_all : val -> bool := printable_gen true.
+(* ... and without a string, byte array or array anywhere inside *)
+Definition set_ok : list val -> bool := set_ok_gen false.
+Definition printable : val -> bool := printable_gen false.
 
 (* ---------- tokens to bytes: the spacing the Format methods write ---------- *)
 Fixpoint digits_aux (fuel : nat) (z : Z) (acc : list Z) : list Z :=
